@@ -32,7 +32,9 @@ func VerifH_C19_A_lastKnownGood() {
 		vz.Assert(ok, "C19/A/typed-out")
 		if outcome.fail {
 			if outcome.partial {
-				cfg.DefaultTTLSecondsAfterFinished = pointer.Int64(-7) // garbage left behind by a failed decode
+				// garbage left behind by a failed decode: in a field the good value sets, and in one it leaves unset
+				cfg.DefaultTTLSecondsAfterFinished = pointer.Int64(-7)
+				cfg.DefaultPendingTimeoutSeconds = pointer.Int64(-9)
 			}
 			return errInjected
 		}
@@ -60,6 +62,7 @@ func VerifH_C19_A_lastKnownGood() {
 			vz.Assert(err == nil && got != nil, "C19/A/failure-degrades-to-last-good")
 			if got != nil {
 				vz.Assert(got.DefaultTTLSecondsAfterFinished != nil && *got.DefaultTTLSecondsAfterFinished == good, "C19/A/last-good-value-exactly")
+				vz.Assert(got.DefaultPendingTimeoutSeconds == nil, "C19/A/nothing-of-the-failed-load-survives")
 			}
 			vz.Cover("degraded")
 		default:
